@@ -48,7 +48,8 @@ def c10_btoken_case(w, ic):
 def fam_c10(R, n):
     """every literal of LITS/BLITS with and without ignore(case) (systematic), then n random regex/skip/priority cases"""
     out = []
-    for w in LITS + ['kelvins', 'ask', 'S', 's', 'sk', 'Mask', 'µ', 'Ω', 'å', 'ǰ', 'ẞ']:
+    # (with blanks and control characters of every width: escapes of the form \\xNN take exactly two digits)
+    for w in LITS + ['kelvins', 'ask', 'S', 's', 'sk', 'Mask', 'µ', 'Ω', 'å', 'ǰ', 'ẞ', 'k\u3000v', '\u2028', 'a\u2003b', '\u1680', 'x\u00a0y', '\u0085', 'p\u200bq', '\x01', 'a\x7f', '\u009f', 'k\u205fK', '\ufeffa', '\U0001f600\u2029']:
         for ic in (True, False):
             out.append(c10_token_case(w, ic))
     for w in BLITS + [b'k', b'S', b'sk']:
